@@ -120,7 +120,12 @@ def main(ctx):
                                                         val[pc]):
             ctx.count(('sizes', quirk, wc, pc),
                       nontrivial=True)
-            mine = [b for b in bad if 'C10' in b.split(' ')[0]]
+            case2, bad2 = chan_raw.extreme_size_cases_client(quirk, val[wc],
+                                                             val[pc])
+            ctx.count(('sizes-client', quirk, wc, pc), nontrivial=True)
+            bad = bad + ['(client role) ' + b for b in bad2
+                         if 'C10' in b.split(' ')[0]]
+            mine = [b for b in bad if 'C10' in b]
             if mine:
                 ctx.violation({'module': 'Sizes', 'quirk': quirk,
                                'window': wc, 'pktsize': pc},
